@@ -5,6 +5,7 @@ From SCC Require Import Base.Sexp Lang.CoreSyn Sem.AxSem Sem.CoreSem Model.Backe
      Model.FocusCheck Proof.FocusTheorems
      Proof.FocusKont Proof.FocusRel Proof.FocusMono Proof.FocusSim Proof.FocusStep Proof.FocusMain Proof.FocusRun
      Proof.FocusFrag.
+From SCC Require Import Model.FocusGuard.
 Import ListNotations.
 Open Scope list_scope.
 Open Scope N_scope.
